@@ -61,6 +61,7 @@ def run_worker(cmd, lines, env=None, timeout=60):
     return vlib.run_batch(cmd, lines, timeout=timeout, env=env, min_chunk=40)
 
 POOL = ([], [])
+KNOWN_DOCS = []
 
 def model_lines(c, lines):
     exe = vlib.build_model('cli')
@@ -322,6 +323,7 @@ def judge_rates(c, oracle, src, base, e, doc, il, m, intact, tag, stats):
                  (b'byte index 3' in imp[1]))
         if known and c.known_finding(CLS):
             stats['known'] += 1
+            KNOWN_DOCS.append(doc)
             return
         c.violation('rates-parser-panics', dict(rep, kind='impl-vs-spec', what='the parser panicked: ' + repr(imp[1])[:200]))
         return
@@ -536,7 +538,6 @@ def l3_layer(c, fend, oracle, scratch, jobs, stats):
             exprs = EXPRS[src] if (len(base) < 1500 or e[0] == 2) else [EXPRS[src][k % 2]]
             for ex in exprs:
                 cases.append((src, tag, e, data, ex, m, base))
-    stats['t_l3_model'] = int(time.time()) - now
     # ---- implementation: one process per case, FEND_CACHE_DIR = a private dir (gen/c20_worker.py) ----
     results = [None] * len(cases)
     worker = os.path.join(vlib.ROOT, 'gen', 'c20_worker.py')
@@ -555,7 +556,6 @@ def l3_layer(c, fend, oracle, scratch, jobs, stats):
             data = cases[k][3]
             after = data if p[3] == '=' else (None if p[3] == 'gone' else unhex(p[3]))
             results[k] = ((rc, unhex(p[1]), unhex(p[2])), after)
-    stats['t_l3_impl'] = int(time.time()) - now
     c.evaluations += len(cases)
     elapsed = int(time.time()) - now
     if elapsed > 900:
@@ -584,7 +584,6 @@ def l3_layer(c, fend, oracle, scratch, jobs, stats):
     lns = list(need)
     for ln, o in zip(lns, c.impl('cli', lns)):
         need[ln] = o
-    stats['t_l3_harness'] = int(time.time()) - now
     intact_out = {}
     for case, (res, after) in zip(cases, results):
         if case[2][0] == 2:
@@ -652,15 +651,28 @@ def l3_layer(c, fend, oracle, scratch, jobs, stats):
 
 # ---------------------------------------------------------------------------
 
+def limit_violations(c, per_name=3):
+    """keep the first few replay files per violation name, count the rest"""
+    from collections import Counter
+    orig = c.violation
+    counts = Counter()
+    def limited(name, replay, no_input=False):
+        counts[name] += 1
+        if counts[name] <= per_name:
+            orig(name, replay, no_input)
+    c.violation = limited
+    c.extra['violation_counts'] = counts
+
 def check(c):
-    POOL[0].clear(); POOL[1].clear()
+    POOL[0].clear(); POOL[1].clear(); KNOWN_DOCS.clear()
+    limit_violations(c)
     T = [time.time()]
     def lap(name):
         t = time.time(); c.extra.setdefault('phase_seconds', {})[name] = round(t - T[0], 1); T[0] = t
     r = c.rng
     quick = c.tier == 'quick'
     c.rule = ('L1 parser hook: every prefix of 4 representative files (EU 1586 B / 722 B, UN 3837 B / 1209 B) + per position %s single-character '
-              'substitutions (structural ASCII, multi-byte / Unicode white space, deletion, insertion) + hand-made boundary files; '
+              'substitutions (structural ASCII, multi-byte / Unicode white space, deletion, insertion) + random multi-edit damage + hand-made boundary files; '
               'LF framing corpus (34 framings x 2 sources); L3 real binary: all prefixes and substitutions of the small files (both expressions), '
               'a sample of the large ones, boundary files, framings.  non-trivial = damaged file; distinct by file content (sha1)'
               % ('3' if quick else '10'))
@@ -702,7 +714,33 @@ def check(c):
             # the file itself, and every prefix of the short ones
             edits = [(2,)] + ([(0, n) for n in range(len(d))] if (len(d) < 120 or not quick) else [])
             blocks.append((src, d, edits, 'boundary%d' % i))
+    # random multi-edit damage (2..6 byte edits, range deletions, duplications) of each file
+    for name in ('eu_small', 'eu_sample', 'un_small', 'un_sample'):
+        src = 0 if name.startswith('eu') else 1
+        for k in range(150 if quick else 1500):
+            d = bytearray(files[name])
+            for _ in range(r.randint(2, 6)):
+                if not d:
+                    break
+                pos = r.randrange(len(d))
+                t = r.random()
+                if t < 0.5:
+                    d[pos:pos + 1] = rand_repl(r, d[pos])
+                elif t < 0.7:
+                    del d[pos:pos + r.randint(1, 40)]
+                elif t < 0.85:
+                    seg = d[pos:pos + r.randint(1, 80)]
+                    d[pos:pos] = seg
+                else:
+                    d[pos:] = b''
+            blocks.append((src, bytes(d), [(2,)], '%s-multi%d' % (name, k)))
     l1_blocks(c, fend, oracle, blocks, stats)
+    # the Coq classifier of the listed defect holds on the inputs recognised as such (C20_eu_no_panic_except_known)
+    if KNOWN_DOCS:
+        sample_docs = KNOWN_DOCS[:60]
+        for d, o in zip(sample_docs, model_lines(c, [sx([Sym('known-eu'), d]) for d in sample_docs])):
+            if o != '1':
+                c.violation('classifier-misses-known-panic', {'kind': 'model-self-check', 'doc_hex': d.hex(), 'classifier': o}, no_input=True)
     lap('L1-boundary')
     # ---------------- LF ----------------
     framing_layer(c, fend, scratch, stats, {0: files['eu_small'], 1: files['un_small']})
